@@ -152,7 +152,7 @@ def model_nodes(nodes):
     """node list as the Lean driver knows it: a plain pass-through Stream is `map id`; harness-only fields are dropped"""
     out = []
     for nd in nodes:
-        nd = {k: v for k, v in nd.items() if k not in ("call_form", "maxsize_default", "emit_on_form")}
+        nd = {k: v for k, v in nd.items() if k not in ("call_form", "maxsize_default", "emit_on_form", "detached")}
         if nd["kind"] == "plain":
             nd = {"kind": "map", "f": ["id"], "ups": nd["ups"]}
         out.append(nd)
